@@ -1,2 +1,58 @@
-import QF.Core.Sorter
-def main : IO Unit := IO.println "qfdriver"
+import QF.Drv.Hist
+/-
+qfdriver: replays a harness transcript (stdin) through the Lean model and spec.
+Output: one line per mismatch
+  SPEC-MISMATCH scn=<k> line=<n> op=<op> kind=<kind> :: <detail>
+  MIRROR-MISMATCH …      DRIVER-ERROR …
+and a summary:  STAT <key> <count> …  /  DONE scenarios=<n> checks=<n> mismatches=<n>
+-/
+open QF QF.Drv
+
+structure DState where
+  sect : String := ""
+  scn : String := "?"
+  hist : HState := {}
+  checks : Nat := 0
+  mism : Nat := 0
+  scenarios : Nat := 0
+  stats : List (String × Nat) := []
+
+def bump (stats : List (String × Nat)) (k : String) : List (String × Nat) :=
+  match stats.find? (·.1 == k) with
+  | some _ => stats.map (fun (a, n) => if a == k then (a, n + 1) else (a, n))
+  | none => stats ++ [(k, 1)]
+
+def emit (st : DState) (lineNo : Nat) (ms : List Msg) : IO DState := do
+  let mut st := st
+  for m in ms do
+    st := { st with checks := st.checks + 1, stats := bump st.stats s!"{st.sect}.{m.op}" }
+    if m.cls != "OK" then
+      st := { st with mism := st.mism + 1 }
+      IO.println s!"{m.cls} section={st.sect} scn={st.scn} line={lineNo} op={m.op} kind={m.kind} :: {m.detail}"
+  return st
+
+partial def loop (h : IO.FS.Stream) (st : DState) (lineNo : Nat) : IO DState := do
+  let line ← h.getLine
+  if line.isEmpty then return st
+  let toks := splitLine (line.trimAsciiEnd.toString)
+  match toks[0]? with
+  | some "S" =>
+    let st := { st with sect := toks[1]?.getD "", scn := toks[3]?.getD "?", hist := {}, scenarios := st.scenarios + 1 }
+    loop h st (lineNo + 1)
+  | some "E" => loop h st (lineNo + 1)
+  | some _ =>
+    match st.sect with
+    | "hist" =>
+      let (hs, ms) := histLine st.hist toks
+      let st ← emit { st with hist := hs } lineNo ms
+      loop h st (lineNo + 1)
+    | _ => loop h st (lineNo + 1)
+  | none => loop h st (lineNo + 1)
+
+def main : IO UInt32 := do
+  let stdin ← IO.getStdin
+  let st ← loop stdin {} 1
+  for (k, n) in st.stats do
+    IO.println s!"STAT {k} {n}"
+  IO.println s!"DONE scenarios={st.scenarios} checks={st.checks} mismatches={st.mism}"
+  return 0
